@@ -219,7 +219,7 @@ func TestSim(t *testing.T) {
 	}
 	scName := os.Getenv("DSIM_SCENARIO")
 	sc := scenarios[scName]
-	if sc == nil && mode != "replay" && mode != "plain-constructs" {
+	if sc == nil && mode != "replay" && mode != "plain-constructs" && mode != "corpus-check" {
 		names := []string{}
 		for n := range scenarios {
 			names = append(names, n)
@@ -241,6 +241,8 @@ func TestSim(t *testing.T) {
 		writeJSON(t, out, res)
 	case "replay":
 		replay(t, out)
+	case "corpus-check":
+		writeJSON(t, out, map[string]interface{}{"failures": corpusCheck()})
 	case "plain-constructs":
 		writeJSON(t, out, map[string]interface{}{"failures": plainConstructs()})
 	default:
